@@ -93,7 +93,8 @@ def run_fire(sc: Dict[str, Any], tid: int, keep_call: bool = False) -> Dict[str,
         kwargs["time_step"] = sc["time_step"]
     api: Dict[str, Any] = {"default_step": sc.get("step_ft") is None,
                            "range_ft_asked": (rng_q >> m.Unit.Foot) if rng_q is not None else None,
-                           "step_ft_asked": (kwargs["trajectory_step"] >> m.Unit.Foot) if "trajectory_step" in kwargs else None}
+                           "step_ft_asked": (kwargs["trajectory_step"] >> m.Unit.Foot) if "trajectory_step" in kwargs else None,
+                           "time_step_asked": float(kwargs.get("time_step", 0.0)), "extra_asked": bool(kwargs.get("extra_data", False))}
     try:
         # generous (machine may be loaded); once one call has hung, the following ones get 20 s so that a
         # non-terminating change does not cost 300 s per scenario
